@@ -8,6 +8,7 @@ class FakeTransport:
     def __init__(self):
         self.written = []
         self.lost = 0
+        self.seen = 0
 
     def write(self, b):
         self.written.append(b)
